@@ -308,8 +308,8 @@ var c10uid = []byte{0, 1, 2, 3, 4, 5, 6, 7, 8, 9, 10, 11, 12, 13, 14, 15}
 var c10pub, _ = base64.StdEncoding.DecodeString("7f7TuKrs264VNSgMno8PkDlyhGhVuOSR8JHLE6H4Ljc=")
 var c10priv, _ = base64.StdEncoding.DecodeString("SMWeC6VuZF8S/id65VuFQFlfa7hTEJBpL6wWhqPP100=")
 
-// echo server behind ck-server: echoes; if the first byte is 0xC1 it closes after echoing the first read, so that
-// the server side of the stream sends a stream-closing notice
+// echo server behind ck-server: echoes; a read that consists of the single byte 0xC2 makes it close the connection
+// (nothing is in flight then), so that the server side of the stream sends a stream-closing notice
 func c10echo(l net.Listener) {
 	for {
 		conn, err := l.Accept()
@@ -319,17 +319,15 @@ func c10echo(l net.Listener) {
 		go func(conn net.Conn) {
 			defer conn.Close()
 			buf := make([]byte, 32*1024)
-			first := true
 			for {
 				n, err := conn.Read(buf)
+				if n == 1 && buf[0] == 0xC2 {
+					return
+				}
 				if n > 0 {
 					if _, e := conn.Write(buf[:n]); e != nil {
 						return
 					}
-					if first && buf[0] == 0xC1 {
-						return
-					}
-					first = false
 				}
 				if err != nil {
 					return
@@ -408,9 +406,7 @@ func c10session(c *ctx, w *c10world, browser, enc, serverName string, numConn in
 			}
 			data := r.bytes(n)
 			serverCloses := i%3 == 2
-			if serverCloses {
-				data[0] = 0xC1
-			} else if len(data) > 0 && data[0] == 0xC1 {
+			if len(data) == 1 && data[0] == 0xC2 {
 				data[0] = 0
 			}
 			res := make(chan error, 1)
@@ -429,7 +425,11 @@ func c10session(c *ctx, w *c10world, browser, enc, serverName string, numConn in
 					return
 				}
 				if serverCloses {
-					// wait for the server's stream-closing notice
+					// ask the far end to hang up, then wait for the server's stream-closing notice
+					if _, err := st.Write([]byte{0xC2}); err != nil {
+						res <- fmt.Errorf("write: %v", err)
+						return
+					}
 					_, err := st.Read(make([]byte, 1))
 					if err == nil {
 						res <- fmt.Errorf("expected the stream to be closed by the server")
@@ -441,7 +441,7 @@ func c10session(c *ctx, w *c10world, browser, enc, serverName string, numConn in
 			select {
 			case err := <-res:
 				if err != nil {
-					o.N("C10 rig: traffic failed (" + label + "): " + err.Error())
+					o.N(fmt.Sprintf("C10 rig: traffic failed (%s) stream #%d of %d bytes, serverCloses=%v: %v", label, i, n, serverCloses, err))
 					rigOK = false
 				}
 			case <-time.After(30 * time.Second):
@@ -611,7 +611,7 @@ func c10(c *ctx) {
 		}
 		// singleplex (NumConn = 0)
 		sid++
-		c10session(c, w, br, encs[k%4], "www.example.com", 0, sid, []int{1000, 40000}, br+" singleplex")
+		c10session(c, w, br, encs[k%4], "www.example.com", 0, sid, []int{40000}, br+" singleplex")
 	}
 	o.sample("tls.client bytes=<everything a client connection wrote> -> valid sid=.. sni=.. share=.. records=N max=M ; tls.server sid=.. bytes=<everything the server wrote> -> valid records=N max=M")
 	o.sample("chrome/firefox/safari x 4 encryption methods x configured/random server names; traffic incl. frames of exactly the maximum payload, closing notices from both sides")
